@@ -241,6 +241,7 @@ REF = {
     'struct': lambda n, v: struct_ok(n, v, {'a': INT, 'b': OPT_STR}, ('a', 'b')),
     'tuple_fix': lambda n, v: fixed_ok(n, v, (INT, FLOAT)),
     'tuple_lit': lambda n, v: fixed_ok(n, v, (INT, STR)),
+    'tuple_struct': lambda n, v: fixed_ok(n, v, (P1C, INT)),
     'list_int': lambda n, v: seq_ok(n, v, INT),
     'set_int': lambda n, v: seq_ok(n, v, INT),
     'tuple_var': lambda n, v: seq_ok(n, v, INT),
@@ -301,3 +302,16 @@ shared.warm(lambda name, s: ORACLE(name, s, 'A') if name in REF else None)
 shared.emit(globals(), "error tree assembled from the elements' own trees", names=[n for n in REF], groups='ABC', quick_groups='ABC')
 shared.emit_td(globals(), "error tree assembled from the elements' own trees",
                names=[k for (k, v) in shared.TD.items() if v[0] in REF])
+
+
+@obligation(pre="0 <= first <= 5 and 0 <= second <= 5 and first != second", witnesses=(0,), timeout=240)
+def body_generic_history(first: int, second: int) -> int:
+    """a union's error node lists its members in declaration order also inside a generic dataclass subscripted after an equal-comparing argument with the members in the other order"""
+    a = b = 0
+    for k in range(6):
+        if first == k:
+            a = k
+        if second == k:
+            b = k
+    r = shared.check_generic_history(a, b, with_tree=True)
+    return r if r else 0
